@@ -22,6 +22,45 @@ CHECKS = {
  "C08": ("exploration", "outcome monitor over recorded ResponseWriter calls and the storage write log",
          "Each SSO request (valid, invalid at each step, unanswerable, failing persistence; any consumer-binding mix) must end in exactly one of the two outcomes; persist count, reply shape, number of documents/forms/WriteHeader calls and left-over records are checked.",
          "Trusts the harness's reply classifier; one request per fresh provider and world.", "DESIGN.md §5 C08"),
+ "C01": ("exploration", "online monitor on the tagged storage event log + leak scan of fully decoded replies + porcupine linearizability check of completion/callback histories",
+         "Callbacks in every stored-request state (absent / pending / done / late failures) with every id placement and method are judged online: Success needs an observed 'found and Done()=true' for a supplied id; anything else must carry no NameID, attribute value, signature or user canary. Concurrent histories (sessions created through the real SSO endpoint, racing completions and callbacks, delays injected in storage) are checked with porcupine against a per-session register model.",
+         "Trusts the simulated storage (per-lookup wrapper attributes Done() to the calling request) and porcupine; histories are short (<= 60 operations) so the checker never times out.", "DESIGN.md §5 C01"),
+ "C02": ("exploration", "delivery-target monitor: registered-endpoint membership, only-encodes relation on form actions, canary hosts",
+         "SSO, callback and logout requests that try to steer the reply elsewhere (foreign ACS URL / index / binding / Destination, URL RelayState, override-like parameters) against hostile registered URLs: every form action / Location / Destination / Recipient and every pair handed to CreateAuthRequest must come from the registration (resp. the stored request).",
+         "Registered URLs are absolute http(s) URLs without fragment; html/template URL normalisation is modelled only by the table-free 'only-encodes' relation.", "DESIGN.md §5 C02"),
+ "C09": ("exploration", "recover()-based crash monitor in child processes over exhaustive structural edits, grids and byte mutations",
+         "Every single (thorough: every pair of) deletion / duplication / emptying of each element and attribute of valid messages on all transports, every SigAlg URI x registered key type, every endpoint x method x parameter shape, byte mutations, and SP metadata edits are executed against the real handlers / NewServiceProvider with panics recovered per call; a dying child process is a violation whose replay is the journalled case.",
+         "Absence of panics is only shown for the inputs executed; native go test -fuzz targets are provided for deeper exploration (tools/fuzz.sh) but are not part of the registered commands.", "DESIGN.md §5 C09"),
+ "C10": ("fault_enumeration", "fault-injection enumeration over recorded storage-call sequences with fail-closed oracle",
+         "For 15 endpoint scenarios the storage calls of a fault-free run are recorded; every (operation, occurrence) x fault kind is injected singly (and, thorough, in pairs where the handler still calls storage after the first fault), plus unusable configured signature algorithms; after a fault the reply must be HTTP 5xx or non-Success SAML with no user data, signature, persistence or login redirect. Exhaustive over the enumerated space.",
+         "Other requests may reach other call sequences; the simulated storage decides which call fails by (operation, k-th occurrence within the request).", "DESIGN.md §5 C10"),
+ "C11": ("exploration", "configuration sampling with positive probes: metadata vs observed Issuer / routes / key / refusal behaviour",
+         "Random provider configurations x hosts: the served metadata is parsed (expat, library) and compared with what the provider does - Issuer of four reply kinds, advertised locations vs routes (a conformant request to the route must reach the right handler), KeyDescriptor vs certificate endpoint vs key verifying a fresh assertion, WantAuthnRequestsSigned vs actual refusal of unsigned requests on both bindings.",
+         "Route paths are URL-safe and pairwise distinct; external endpoint URLs are compared textually only.", "DESIGN.md §5 C11"),
+ "C12": ("exploration", "disclosure-guard monitor with user canaries + reference attribute filter + independent signature verifiers",
+         "Attribute queries with labelled Issuer / Destination / signature / subject / requested attributes: any user canary in a reply implies all guard conditions; answered queries are compared with a reference filter (as sets), the lookup argument, NameID, InResponseTo, Audience, Issuer, and their assertion signature is verified by V1 and V2.",
+         "Signatures over strings that canonical XML must escape are left to C04 (known finding D6). Signed queries are always refused on this tree (known finding D14 of C07), so the 'valid signature' branch is only observed as refusal.", "DESIGN.md §5 C12"),
+ "C13": ("exploration", "label-by-construction monitor on decoded LogoutResponses with wall-clock bracket",
+         "Logout requests with labelled validity, hostile RelayState and SP registrations with 0-3 SingleLogoutService entries: Success only for valid requests, InResponseTo echo, Issuer, delivery target = first registered location or body, RelayState unchanged.",
+         "Absent / unparseable instants are not judged; RelayState is compared modulo CR/CRLF->LF.", "DESIGN.md §5 C13"),
+ "C14": ("exploration", "allocation monitor (runtime.MemStats.TotalAlloc around one ServeHTTP) in a dedicated sequential child process",
+         "Decompression bombs of 1 MiB - 256 MiB (thorough 1 GiB) in four placements on all inflating endpoints: per-request allocation ceiling, flatness of allocation beyond the cap, and non-acceptance of large payloads.",
+         "Measures cumulative allocation, not RSS; thresholds are deliberately loose (512 MiB ceiling, 1.5x flatness).", "DESIGN.md §5 C14"),
+ "C15": ("exploration", "Go race detector + canary isolation monitor + global ID-uniqueness monitor under a concurrent mixed workload with injected storage delays",
+         "16/32/64 concurrent clients x GOMAXPROCS 2/4/16 against one provider instance built with -race; DATA RACE reports with repo frames, any foreign canary in a reply or persisted record, and any duplicate or malformed ID are violations. Evidence reports max in-flight requests and distinct interleaving signatures actually observed.",
+         "The race detector only sees executed interleavings; delays are injected at the storage suspension points only.", "DESIGN.md §5 C15"),
+ "C16": ("exploration", "reference-model monitor over exhaustive enumeration of the stated list domain (+ end-to-end sample through the SSO handler)",
+         "Every consumer-service list up to length 3 (quick) / 4 (thorough) over the stated domain x 6 requested bindings is evaluated by the real selection function and compared with the set of entries the documented rule allows. Exhaustive on the stated bound.",
+         "Trusts the 25-line reference model; ties on the minimal index are free.", "DESIGN.md §5 C16"),
+ "C17": ("exploration", "own byte-level HTML tokenizer: skeleton identity against a neutral rendering + value identity of the three substitutions",
+         "Auto-submit pages produced through every real path with hostile RelayState (all bytes, NUL, invalid UTF-8, 64 KiB) and consumer URLs (scheme tricks, markup) must have the neutral skeleton; the three values must be the substituted ones (NUL / invalid UTF-8 may become U+FFFD); the action's scheme as a browser reads it must be http(s)/mailto/none.",
+         "Trusts the harness tokenizer (HTML tag / attribute states); the inert placeholder is accepted only for URLs with a non-http(s)/mailto 'scheme'.", "DESIGN.md §5 C17"),
+ "C18": ("exploration", "codec identity monitor + expat well-formedness / skeleton identity / value identity on marshalled messages and harvested replies",
+         "Round trip of the DEFLATE+base64 codec on 0 B - 4 MiB inputs, error on every near-miss encoding identifier; Response / SOAP / LogoutResponse / EntityDescriptor values with arbitrary (incl. illegal) strings through the exported marshallers must stay one well-formed document with the neutral skeleton and give the values back (legal: exactly; illegal: replaced only); replies echoing attacker-chosen IDs are checked likewise.",
+         "Trusts expat as the generic XML parser; codec inputs above the decoder's cap are out of scope (C14).", "DESIGN.md §5 C18"),
+ "C19": ("exploration", "RFC 3986 reference splitter on accepted issuers + by-construction expectation on Forwarded / Host derived issuers",
+         "Issuer strings x insecure flag offered to ValidateIssuer / NewProvider: acceptance implies the reference conditions (only-if; stricter code never alarms). Generated header sets: entityID and endpoint URLs of the served metadata equal scheme + expected host + configured path.",
+         "For malformed forwarding headers only the weaker origin clause is judged.", "DESIGN.md §5 C19"),
  "C20": ("exploration", "reference-interpreter monitor over traces recorded by instrumented closures (exhaustive chain enumeration + random chains)",
          "Every step sequence up to length 4 (quick) / 6 (thorough) over all (step kind, outcome) variants is built with the real checker and evaluated twice; an online monitor compares the recorded closure trace and result with a reference interpreter. Exhaustive on the stated bound, sampled beyond it.",
          "Trusts the reference interpreter (40 lines) and that closures are deterministic; value-read multiplicity is deliberately not judged.", "DESIGN.md §5 C20"),
